@@ -4,7 +4,7 @@
 BASE=${1:-/tmp/mut}
 TAG=${2:-m}
 cd /verif
-for d in $BASE/C*/; do
+for d in $BASE/*/; do
   P=$(basename $d)
   for n in 1 2 3; do
     if [ $n = 1 ]; then pf=patch.diff; mf=meta.json; df=tests/demo_$P.rs; else pf=patch$n.diff; mf=meta$n.json; df=tests/demo_${P}_$n.rs; fi
